@@ -482,7 +482,21 @@ func addHost(m map[string]extFn) {
 		a[0].(*Host).v.(*reggen.Generator).SetSeed(int64(a[1].(I)))
 		return nil
 	}
-	m["(*github.com/lucasjones/reggen.Generator).Generate"] = func(ex *Exec, fr *frame, a []value) value {
+	m["(*github.com/lucasjones/reggen.Generator).Generate"] = func(ex *Exec, fr *frame, a []value) (res value) {
+		// the generator panics on patterns it cannot produce a string for:
+		// that is a panic of the code under test, not of the interpreter
+		defer func() {
+			if r := recover(); r != nil {
+				switch r := r.(type) {
+				case targetPanic, pathAbort:
+					panic(r)
+				case error:
+					ex.panicRuntime(strings.TrimPrefix(r.Error(), "runtime error: "))
+				default:
+					panic(targetPanic{iface{t: types.Typ[types.String], v: fmt.Sprint(r)}})
+				}
+			}
+		}()
 		return a[0].(*Host).v.(*reggen.Generator).Generate(int(a[1].(I)))
 	}
 
